@@ -40,11 +40,24 @@ pub fn parse(
         let tk_param_name = walker.expect(report, syntax::TokenKind::Identifier)?;
         let param_name = walker.get_span_excerpt(tk_param_name.span).to_string();
         
+        if params.iter().any(|p: &AstFnParameter| p.name == param_name)
+        {
+            report.error_span(
+                format!("duplicate parameter `{}`", param_name),
+                tk_param_name.span);
+
+            return Err(());
+        }
+
         params.push(AstFnParameter {
             name: param_name,
         });
 
-        walker.maybe_expect(syntax::TokenKind::Comma);
+        // Parameters are separated by commas
+        if walker.maybe_expect(syntax::TokenKind::Comma).is_none()
+        {
+            break;
+        }
     }
 
     walker.expect(report, syntax::TokenKind::ParenClose)?;
